@@ -115,6 +115,29 @@ func RunSeq(prog *ssa.Program, sizes typesSizes, fn *ssa.Function, job *SeqJob) 
 	for fn, n := range r.FuncPtr {
 		r.Funcs[fn.String()] += n
 	}
+	// cross-check a sample of the discharged assertion queries on a second solver
+	if len(r.CrossSample) > 0 && os.Getenv("VERIF_NOCROSS") == "" {
+		other := "cvc5"
+		if kind == "cvc5" {
+			other = "z3new"
+		}
+		if s2, err := smt.New(other, f, 60000); err == nil {
+			for _, q := range r.CrossSample {
+				res2, err := s2.CheckWith(false, q.F)
+				if err != nil || res2 == smt.Unknown {
+					r.CrossUnknown++
+					continue
+				}
+				r.CrossChecked++
+				if res2 != q.Res {
+					r.CrossDisagree++
+					r.Unknown = append(r.Unknown, fmt.Sprintf("solver disagreement on assertion %q: %s says %v, %s says %v", q.Label, kind, q.Res, other, res2))
+				}
+			}
+			s2.Close()
+		}
+	}
+	r.CrossSample = nil
 	acc.add(s.Stats)
 	st := acc.Stats
 	return r, &st, nil
@@ -229,6 +252,9 @@ func (m *Machine) doAssert(label string, c *term.T) {
 		if err != nil {
 			r.Unknown = append(r.Unknown, "assert "+label+": "+err.Error())
 		}
+	}
+	if (res == smt.Sat || res == smt.Unsat) && len(r.CrossSample) < 25 && (r.AssertsHit[label] <= 3) {
+		r.CrossSample = append(r.CrossSample, CrossQuery{F: m.F.And(append(append([]*term.T(nil), m.pc...), nc)...), Res: res, Label: label})
 	}
 	switch res {
 	case smt.Sat:
